@@ -364,8 +364,10 @@ def parse_blocks(out):
             blocks[cur] = []
         elif line == "end":
             cur = None
-        elif cur is not None:
+        elif cur is not None and not line.startswith("#"):
             blocks[cur].append(line)
+        elif cur is not None:
+            blocks.setdefault("#" + cur, []).append(line)
     return blocks
 
 
